@@ -196,7 +196,7 @@ def run(ctx):
         "correspondence: (a) single lift calls with random stage parameters (type 1..4, L 0..5, D -4..3, S 0..13, lengths 0..13 incl. odd) "
         "and oned_synthesis/oned_analysis for each live filter; (b) forward cases: random component pictures 1..20 x 1..20, every one of the "
         "%d filter pairs, depths 0..3 x 0..3, samples up to +-2^70 - padded picture, EVERY sub-band of dwt, idwt output and unpadded result "
-        "compared; (c) inverse cases: idwt on independent random coefficient arrays and dwt of its output. A case is non-trivial when a "
+        "compared, and the implementation's sub-band shapes checked against Gen.SliceSizes inside Coq; (c) inverse cases: idwt on independent random coefficient arrays and dwt of its output. A case is non-trivial when a "
         "transform level is applied (d+dh>0) or a lift runs on >=2 samples. oracle: round trip and sub-band shapes vs slice_sizes on the "
         "implementation over all pairs x depths 0..4 x 0..4 x sizes." % len(pairs))
     mism_inputs = []
@@ -246,7 +246,7 @@ def run(ctx):
                        "differs on %r" % [meta[i] for i in bad[:3]])
 
     # ---- (b) forward cases ------------------------------------------------------------
-    nfwd = ctx.pick(196, 1960)
+    nfwd = ctx.pick(147, 1960)
     cases, meta = [], []
     fails = []
     for i in range(nfwd):
@@ -262,33 +262,20 @@ def run(ctx):
             continue
         cases.append("((%s, %s), (%s, %s, %s, %s, %s, %s), %s, %s, %s, %s, %s, %s)" % (
             cz(wi), cz(wiho), cz(dims[0]), cz(dims[1]), cz(dims[2]), cz(dims[3]), cz(dims[4]), cz(dims[5]), cz(comp),
-            carr(pic), carr(padded), ccoeffs(ct), carr(syn), carr(out)))
+            carr(pic), carr(padded), ccoeffs(ct),
+            "None" if syn == padded else "(Some %s)" % carr(syn), "None" if out == pic else "(Some %s)" % carr(out)))
         meta.append((wi, wiho, dims, comp, pic))
         ctx.count(1, key=("fwd", i) if dims[4] + dims[5] > 0 else None, bucket=bucket(dims, comp))
         if i < 2:
             ctx.sample({"wavelet_index": wi, "wavelet_index_ho": wiho, "dims(lw,lh,cw,ch,d,dh)": dims, "comp": COMPS[comp],
                         "pic_first_row": [str(v) for v in pic[0]]})
-    bad = ctx.coq_check_cases("fwd", imports, "chk_fwd tbl", cases, shard=14, defs=tdef, timeout=900)
+    bad = ctx.coq_check_cases("fwd", imports, "chk_fwd tbl", cases, shard=ctx.pick(10, 14), defs=tdef, timeout=900,
+                              ty="(Z * Z) * (Z * Z * Z * Z * Z * Z) * Z * arr * arr * coeffs * option arr * option arr")
     for i in (bad or []):
         mism_inputs.append(meta[i])
     if bad:
-        ctx.obligation("corr:dwt/idwt/padding model agrees with implementation (forward cases)", False, "corr-shard",
+        ctx.obligation("corr:dwt/idwt/padding model agrees with implementation, sub-band shapes = Gen.SliceSizes (forward cases)", False, "corr-shard",
                        "differs on (wi, wiho, dims, comp) = %r" % [meta[i][:4] for i in bad[:5]])
-    # shapes of the implementation's coefficients, judged by the GENERATED slice geometry inside Coq
-    shp_cases = []
-    for (wi, wiho, dims, comp, pic), c in list(zip(meta, cases))[: ctx.pick(60, 400)]:
-        shp_cases.append(c)
-    badshp = ctx.coq_check_cases(
-        "shape", imports,
-        "fun c : (Z * Z) * (Z * Z * Z * Z * Z * Z) * Z * arr * arr * coeffs * arr * arr => "
-        "let '(_, (lw, lh, cw, ch, d, dh), comp, _, _, cf, _, _) := c in coeffs_shapes_ok (mkst lw lh cw ch d dh) (comp_of comp) cf",
-        shp_cases, shard=14, defs=tdef, timeout=900)
-    if badshp:
-        for i in badshp:
-            mism_inputs.append(meta[i])
-        ctx.obligation("corr:implementation's sub-band shapes equal Gen.SliceSizes.subband_height/width", False, "corr-shard",
-                       "differs on %r" % [meta[i][:4] for i in badshp[:5]])
-
     # ---- (c) inverse cases on independent coefficients -----------------------------------
     ninv = ctx.pick(98, 980)
     cases, meta = [], []
@@ -315,7 +302,8 @@ def run(ctx):
         cases.append("((%s, %s), (%s, %s), %s, %s, %s)" % (cz(wi), cz(wiho), cz(d), cz(dh), ccoeffs(ct), carr(syn_c), ccoeffs(ct2)))
         meta.append((wi, wiho, d, dh))
         ctx.count(1, key=("inv", i) if d + dh > 0 else None, bucket="inv d=%d,dh=%d" % (d, dh))
-    bad = ctx.coq_check_cases("inv", imports, "chk_inv tbl", cases, shard=14, defs=tdef, timeout=900)
+    bad = ctx.coq_check_cases("inv", imports, "chk_inv tbl", cases, shard=ctx.pick(10, 14), defs=tdef, timeout=900,
+                              ty="(Z * Z) * (Z * Z) * coeffs * arr * coeffs")
     if bad:
         ctx.obligation("corr:idwt model agrees with implementation on independent coefficients", False, "corr-shard",
                        "differs on (wi, wiho, d, dh) = %r" % [meta[i] for i in bad[:5]])
@@ -327,8 +315,8 @@ def run(ctx):
         if r is not None:
             ctx.violation(r[0], {"wi": wi, "wiho": wiho, "dims": list(dims), "comp": comp, "pic": pic}, r[1], observed=r[2], expected=pic)
     jobs = []
-    maxn = ctx.pick(9, 24)
-    reps = ctx.pick(1, 4)
+    maxn = ctx.pick(24, 48)
+    reps = ctx.pick(6, 30)
     for (wi, wiho) in pairs:
         for d in range(0, 5):
             for dh in range(0, 5):
@@ -338,12 +326,12 @@ def run(ctx):
                     cw, ch = rng.randrange(1, (4 if big else maxn) + 1), rng.randrange(1, (4 if big else maxn) + 1)
                     comp = rng.randrange(3)
                     w, h = (lw, lh) if comp == 0 else (cw, ch)
-                    pic = rand_arr(rng, h, w, rng.choice([1, 2, 3, 4]))
+                    pic = rand_arr(rng, h, w, rng.choice([0, 1, 2, 3, 4]))
                     jobs.append((wi, wiho, (lw, lh, cw, ch, d, dh), comp, pic))
     # all sizes 1..N x 1..N for a rotating pair/depth (small, exhaustive in size)
     k = 0
-    for w in range(1, ctx.pick(9, 17)):
-        for h in range(1, ctx.pick(9, 17)):
+    for w in range(1, ctx.pick(25, 41)):
+        for h in range(1, ctx.pick(25, 41)):
             wi, wiho = pairs[k % len(pairs)]
             d, dh = (k // 7) % 4, (k // 3) % 4
             k += 1
